@@ -346,6 +346,29 @@ func fanin(name string, dag bool) shape {
 		}}
 }
 
+// wideFanin: node a and n keyed pass-throughs (p1..pn, each wrapping the graph input under its own key) all feed END.
+func wideFanin(name string, n int) shape {
+	return shape{name: name, feat: "fan", npos: 1, inputs: inM,
+		build: func(f *factory) (runner, error) {
+			b := newGB[M]()
+			b.node("a", f.M(0))
+			b.edges(S, "a", "a", E)
+			for i := 1; i <= n; i++ {
+				k := fmt.Sprintf("p%d", i)
+				b.pass(k, compose.WithOutputKey(k))
+				b.edges(S, k, k, E)
+			}
+			return b.compile()
+		},
+		model: func(e *eval, x any) any {
+			out := union(e.m(0, x.(M)))
+			for i := 1; i <= n; i++ {
+				out[fmt.Sprintf("p%d", i)] = map[string]any(x.(M))
+			}
+			return out
+		}}
+}
+
 func branchShape(name string, stream bool) shape {
 	return shape{name: name, feat: name, npos: 3, inputs: inMLR,
 		build: func(f *factory) (runner, error) {
@@ -569,6 +592,8 @@ func allShapes() []shape {
 			}},
 		fanin("fanin", false),
 		fanin("fanin-dag", true),
+		wideFanin("fanin5", 4), // END merges 5 streams: the widest merge served by the hand-unrolled select
+		wideFanin("fanin6", 5), // ... and 6: the first one served by reflect.Select
 
 		// ---- branches
 		branchShape("branch", false),
